@@ -12,6 +12,7 @@ import (
 	"github.com/enbility/spine-go/internal/verifh/world"
 	"github.com/enbility/spine-go/model"
 	"github.com/enbility/spine-go/spine"
+	"github.com/enbility/spine-go/util"
 )
 
 // C13 — outbound message identity: unique counters and sound request de-duplication.
@@ -303,6 +304,152 @@ func c13NotifyDriver() *engine.HDriver {
 		}}
 }
 
+// ---------------------------------------------------------------- histories: de-duplication through the device
+
+// c13DeviceDriver issues the requests through the feature API (FeatureLocal.RequestRemoteData)
+// and delivers the responses as datagrams on the connection, including responses whose
+// processing fails: any response that references the counter re-enables sending.
+func c13DeviceDriver() *engine.HDriver {
+	alpha := []string{"req:1:1", "req:1:2", "req:2:1"}
+	for _, i := range []string{"o0", "o1"} {
+		for _, v := range []string{"reply", "reply-other-function", "reply-to-unknown-local-feature", "reply-from-unknown-remote-feature", "result-ok", "result-error", "result-without-errornumber"} {
+			alpha = append(alpha, "resp:"+i+":"+v)
+		}
+	}
+	type dw struct {
+		w  *world.World
+		lf api.FeatureLocalInterface
+		m  *reqModel
+	}
+	step := func(d *dw, op string, judge bool) (viol []string, digest string, effect bool) {
+		a := d.w.Peers["A"]
+		f := strings.Split(op, ":")
+		switch f[0] {
+		case "req":
+			ent, fnI := uint(atoi(f[1])), atoi(f[2])
+			fn := fnLimit
+			if fnI == 2 {
+				fn = fnLimitDesc
+			}
+			rf := a.Dev.FeatureByAddress(world.FAddr("dA", []uint{ent}, 4))
+			key := f[1] + "/" + f[2]
+			before := a.W.Len()
+			ctr, err := d.lf.RequestRemoteData(fn, nil, nil, rf)
+			if err != nil || ctr == nil {
+				return []string{"RequestRemoteData failed"}, "req:error", false
+			}
+			k := uint64(*ctr)
+			written := a.W.Len() - before
+			switch written {
+			case 0:
+				digest = "req:withheld"
+				ok := false
+				for _, x := range d.m.out[key] {
+					ok = ok || x == k
+				}
+				if judge && !ok {
+					viol = append(viol, fmt.Sprintf("request withheld although no identical request with the returned counter is unanswered | op=%s returned=%d unanswered=%v", op, k, d.m.out[key]))
+				}
+			case 1:
+				digest, effect = "req:sent", true
+				d.m.out[key] = append(d.m.out[key], k)
+			default:
+				viol = append(viol, "one request wrote several datagrams")
+			}
+		case "resp":
+			var all []uint64
+			keyOf := map[uint64]string{}
+			for key, l := range d.m.out {
+				for _, x := range l {
+					all = append(all, x)
+					keyOf[x] = key
+				}
+			}
+			sort.Slice(all, func(i, j int) bool { return all[i] < all[j] })
+			i := atoi(f[1][1:])
+			if i >= len(all) {
+				return nil, "resp:none", false
+			}
+			ref := all[i]
+			ent := uint(atoi(strings.Split(keyOf[ref], "/")[0]))
+			src := world.FAddr("dA", []uint{ent}, 4)
+			dst := d.lf.Address()
+			cl := model.CmdClassifierTypeReply
+			cmd := model.CmdType{LoadControlLimitListData: limitList(2, 1)}
+			if strings.HasSuffix(keyOf[ref], "/2") {
+				cmd = model.CmdType{LoadControlLimitDescriptionListData: limitDescList(2)}
+			}
+			switch f[2] {
+			case "reply-other-function":
+				cmd = model.CmdType{MeasurementListData: &model.MeasurementListDataType{}}
+			case "reply-to-unknown-local-feature":
+				dst = world.FAddr(world.LocalAddr, []uint{1}, 99)
+			case "reply-from-unknown-remote-feature":
+				src = world.FAddr("dA", []uint{ent}, 99)
+			case "result-ok":
+				cl = model.CmdClassifierTypeResult
+				cmd = model.CmdType{ResultData: &model.ResultDataType{ErrorNumber: util.Ptr(model.ErrorNumberType(0))}}
+			case "result-error":
+				cl = model.CmdClassifierTypeResult
+				cmd = model.CmdType{ResultData: &model.ResultDataType{ErrorNumber: util.Ptr(model.ErrorNumberType(7))}}
+			case "result-without-errornumber":
+				cl = model.CmdClassifierTypeResult
+				cmd = model.CmdType{ResultData: &model.ResultDataType{}}
+			}
+			a.Deliver(a.Datagram(src, dst, cl, false, ptrCtr(ref), cmd))
+			rt.WaitIdle()
+			// a response referencing the counter answers the request, whatever its processing yields
+			key := keyOf[ref]
+			var nl []uint64
+			for _, x := range d.m.out[key] {
+				if x != ref {
+					nl = append(nl, x)
+				}
+			}
+			if len(nl) == 0 {
+				delete(d.m.out, key)
+			} else {
+				d.m.out[key] = nl
+			}
+			digest, effect = "resp:"+f[2], true
+		}
+		if judge {
+			for _, k := range spine.VerifReqCache(a.Dev.Sender()) {
+				ok := false
+				for _, l := range d.m.out {
+					for _, x := range l {
+						ok = ok || x == k
+					}
+				}
+				// the requests the stack issued on its own during set-up (discovery, use cases, subscription) are answered or not the subject here
+				if !ok && k > 3 {
+					viol = append(viol, fmt.Sprintf("a request that was answered by a response referencing its counter is still remembered as unanswered (identical requests stay withheld) | counter=%d op=%s", k, op))
+				}
+			}
+		}
+		return
+	}
+	return &engine.HDriver{Name: "request-dedup-through-device", Alphabet: alpha, Step: func(hist []string, op string) engine.HStep {
+		d := &dw{w: stdWorld(false, "A"), m: &reqModel{out: map[string][]uint64{}}}
+		d.lf = d.w.L.FeatureByAddress(world.FAddr(world.LocalAddr, []uint{1}, lLCClient))
+		rt.WaitIdle()
+		for _, h := range hist {
+			step(d, h, false)
+		}
+		var st engine.HStep
+		if op != "" {
+			st.Violations, st.Digest, st.Effect = step(d, op, true)
+		}
+		var ks []string
+		for k, l := range d.m.out {
+			ks = append(ks, fmt.Sprintf("%s#%d", k, len(l)))
+		}
+		sort.Strings(ks)
+		st.Key = fmt.Sprintf("unanswered=%v cache=%d", ks, len(spine.VerifReqCache(d.w.Peers["A"].Dev.Sender())))
+		return st
+	}}
+}
+
 func c13Drivers(thorough bool) []*engine.HDriver {
 	var alpha []string
 	for _, d := range []int{1, 2} {
@@ -321,7 +468,7 @@ func c13Drivers(thorough bool) []*engine.HDriver {
 		starts = append(starts, h)
 	}
 	over := []string{"req:40:1:read", "req:41:1:read", "req:10:1:read", "req:11:1:read", "req:12:2:read", "resp:o0", "resp:o1", "resp:answered"}
-	ds := []*engine.HDriver{c13ReqDriver("request-dedup", alpha, nil), c13ReqDriver("request-overflow", over, starts), c13NotifyDriver()}
+	ds := []*engine.HDriver{c13ReqDriver("request-dedup", alpha, nil), c13DeviceDriver(), c13ReqDriver("request-overflow", over, starts), c13NotifyDriver()}
 	return ds
 }
 
@@ -481,7 +628,7 @@ func init() {
 			rep := &engine.Report{Level: "model_checking", Coverage: map[string]any{}}
 			for _, d := range c13Drivers(c.Thorough) {
 				depth := 64
-				if d.Name != "request-dedup" {
+				if d.Name != "request-dedup" && d.Name != "request-dedup-through-device" {
 					depth = 3
 					if c.Thorough {
 						depth = 4
